@@ -663,6 +663,7 @@ type Config struct {
 	Sites      bool          // record call sites of parked operations (slower)
 	Race       bool          // vector-clock race detection on vs.Rd/vs.Wr accesses
 	NoWatchdog bool
+	LivelockOK bool // Run1: return an execution that exhausted its event budget (Exec.Livelock) instead of refusing it
 	NoSpawnPoint bool // do not make thread creation a scheduling point
 	// SharedOnly: a preemption is only tried before an operation on an object
 	// that more than one thread touches in the parent execution (operations on
@@ -841,7 +842,7 @@ func Run1(cfg Config, body func()) *Exec {
 	}
 	x := run(&cfg, nil, body, false)
 	WatchdogIdle()
-	if x.Livelock {
+	if x.Livelock && !cfg.LivelockOK {
 		// never truncate an enumerator's case silently
 		panic(fmt.Sprintf("INFRA: vs.Run1: the body exceeded the event budget of %d scheduler events", cfg.MaxEvents))
 	}
